@@ -195,6 +195,12 @@ def jobs(tier):
     js += bilin_jobs(tier)
     js += iter_jobs(tier)
     js += fetch_jobs(tier)
+    # (lead) wide pipeline: a pixel whose (4-word) mask pixel is non-zero must be fetched — found the defect repaired by the
+    # fix: commit "wide fetchers: test the whole mask pixel"
+    for it, fn in ((0, "bits_image_fetch_affine_no_alpha_float"), (1, "bits_image_fetch_general_float")):
+        js.append(Job("wide.mask_skip.%s" % ("affine" if it == 0 else "general"), "C08/wide_mask.c", defines={"VC_ITER": it, "VC_W": 4},
+                      unwind=6, kind="bounded", bound="scanline width 4 (unrolled); every mask content", functions=[fn, "__bits_image_fetch_" + ("affine_no_alpha" if it == 0 else "general")],
+                      domain="float scanline fetcher of a transformed source with a wide mask: every 16-word mask, ghost pixel", timeout=600, min_props=2))
     return js
 
 
